@@ -65,6 +65,21 @@ PROPS = {
         "trusted_base": COMMON_TRUST + COUNTER_TRUST,
         "assumptions": ["files without an ignore-file directive (inserting a line shifts the 10-line scan window)"],
     },
+    "C06": {
+        "modules": ["SlocModel.Props.C06"],
+        "required_theorems": ["count_failed_iff", "count_warning_iff", "warnFrom_absolute", "warnFrom_percentage", "warnLimit_precedence",
+                              "unlimited_checks_nothing", "zero_forbids_any", "last_rule_wins", "lastMatching_none_iff",
+                              "field_inheritance", "no_rule_uses_globals", "relative_depth_def", "base_depth_examples",
+                              "explain_coherent_dir", "step_files", "step_dirs", "counts_exact_files", "counts_exact_dirs", "not_counted"],
+        "technique": "Lean 4 theorems over a model of StructureChecker and of the unified scanner's directory-count fold (all entry sequences, all rule lists, exact f64 percentages) + differential correspondence in-process and on materialised trees with both walker backends",
+        "level_text": "Machine-checked for every directory-entry sequence (any width, depth, hidden / ignored / excluded / count-excluded / non-regular entries): after the walk the file and sub-directory figures of every directory equal the number of its immediate entries that the walker yields and that are neither scanner- nor count-excluded (step-wise invariant lifted by induction over the entry list); for every limit and warn configuration a figure fails iff it exceeds the limit, warns iff within the limit and at or above an absolute warn count / above the rounded-up percentage (exact IEEE arithmetic), -1 disables and 0 forbids; limits come from the last declared rule whose scope matches, unset fields inherit the global ones, relative depth is measured from the scope's fixed prefix, and explain reports the same rule and limits. Compared with StructureChecker::{check,explain} on 60k (2M) generated (config, stats) pairs and with the real CompositeScanner on 300 (10k) trees on disk under both backends, alongside an independent read_dir-style count. The defect found (exclusive absolute warn count) was repaired (fix: 809cf27).",
+        "level_note": "Trusted: Lean kernel + standard axioms; harness; globset matching and .gitignore evaluation are parameters (the ignore file uses basename patterns only, whose meaning needs no interpretation); walkdir / ignore yield parents before children. Roots are spelled canonically here (spelling is C08's subject); root-anchored excludes of nested same-named directories are C08/C01's finding and avoided.",
+        "trivial_tag_prefixes": ["struct-dir/m0/clean"],
+        "rule": "struct-dir: global limits from {unset,-1,0,1,2,5,10,50}, 0-3 rules with scopes from a 10-pattern pool (overlapping on purpose) and every subset of optional warn fields (absolute below the limit as the gate demands, 8 thresholds incl. 0.56/0.1), relative_depth, directory from an 8-path pool, counts 0-13 / 0-7 / depth 0-6; walk: random trees (<= 5 children per directory, depth <= 4, hidden entries, empty directories, symlinks, *.log / tmp/ / secret.txt git-ignored, **/vendor/** **/*.gen.rs **/generated/** **/.hidden/** excluded, *.md **/docs/** count-excluded), each scanned with a random backend; distinct = distinct request lines",
+        "explanation": "verdict / last-rule / inheritance / counts-exact theorems + driver ops struct-dir, walk, base-depth compared with the real checker and scanner + an independent oracle of the property text",
+        "trusted_base": COMMON_TRUST + ["globset and the ignore crate are parameters", "f64: exact integer model (SlocModel.F64)"],
+        "assumptions": ["limits validated >= -1 (StructureChecker::new rejects others)"],
+    },
     "C09": {
         "modules": ["SlocModel.Props.C09"],
         "required_theorems": ["unrecorded_stays_failed", "non_masking", "update_all_records", "new_mode_superset",
